@@ -10,7 +10,10 @@
    SAFETY INPUT  [run_all (oneway_safe x)]: facts about every state of the run that are C04 / C05 /
    C01 content (regime: both ESTABLISHED, no zero window advertised; RCV.NXT of the receiver lies
    within the sender's unacknowledged octets; in-flight segments acknowledge the receiver's SND.UNA;
-   assembler well-formed) - assumed of the run, not re-proved here.
+   assembler well-formed) - assumed of the run in sections 2-5, DISCHARGED in Props/C02liveSafe.v: derived for
+   every run from a state reached from net_init from C01's network invariant (INV_reach, closed) and
+   the regime invariant [reg] proved here; what remains is a premise on the start state ([reg]), on
+   the applications (only x writes, nobody closes, < 2^30 octets) and [win_open] (no zero window).
    Level: PARTIAL - see checks/C02.live.json. *)
 From SV Require Import Lib.Base Gen.Consts.
 From SV Require Import Model.Seq32 Model.Assembler Model.TcpBuf Model.TcpTypes Model.Tcp Model.TcpNet.
